@@ -53,7 +53,8 @@ def run_case(rng, idx, tier):
     ev = {"queries": 0, "truth_exact": 0, "truth_interval": 0, "support_calls": 0, "clipped": 0, "overlap_certified": 0}
     names = (O.name(sA), O.name(sB))
     key0 = {"pair": "%s|%s" % (O.base_kind(sA), O.base_kind(sB)), "cls": cls.split("+")[0],
-            "max_aspect": O.aspect_bucket(max(O.aspect(sA), O.aspect(sB)))}
+            "max_aspect": O.aspect_bucket(max(O.aspect(sA), O.aspect(sB))),
+            "flat_shape": bool(O.base_kind(sA) in ("disk", "ellipse") or O.base_kind(sB) in ("disk", "ellipse"))}
     fn, fname = _call(idx)
     pa = monitors.Counted(A, record=True); pb = pa if B is A else monitors.Counted(B, record=True)
     rec = {"cls": "%s|%s|%s" % (names[0], names[1], cls), "nontrivial": cls not in ("free", "far"),
@@ -143,7 +144,9 @@ def run_case(rng, idx, tier):
             bad("zero-on-gap", lb / L, "d=0 although the shapes are separated by at least %.3g" % lb)
     if certified_overlap:
         if d != 0.0:
+            key0["shallow_overlap"] = bool(truth["depth"] < 100 * tol)
             bad("nonzero-on-overlap", d / L, "d=%.3g although a common point lies %.3g deep in both shapes" % (d, truth["depth"]))
+            key0.pop("shallow_overlap", None)
     if d == 0.0:
         sep = float(np.linalg.norm(a - b)) / L
         if sep > TOL:
